@@ -75,6 +75,31 @@ let bd_op tok : Model.z * Model.z list =
   | ["cpa"] -> (zi 15, [])
   | _ -> (zi 999, [])
 
+let pool_op tok : Model.z * Model.z list =
+  match String.split_on_char ':' tok with
+  | ["a"; b; al] -> (zi 0, [zs b; zs al])
+  | ["f"; i] -> (zi 1, [zs i])
+  | _ -> (zi 999, [])
+
+(* one pool step:  res/nchunks/avail/k=a,a;k=a   (free lists that are empty are omitted; none: -) *)
+let show_pool_step ((((res, n), av), fl)) =
+  let lists = List.filter (fun (_, l) -> l <> []) (List.mapi (fun k l -> (k, l)) fl) in
+  let fls = if lists = [] then "-" else
+      String.concat ";" (List.map (fun (k, l) -> string_of_int k ^ "=" ^ String.concat "," (List.map string_of_z l)) lists) in
+  Printf.sprintf "%s/%s/%s/%s" (string_of_z res) (string_of_z n) (string_of_z av) fls
+
+let parse_pool_step nfl s =
+  if s = "UB" then None
+  else match String.split_on_char '/' s with
+    | [res; n; av; fls] ->
+      let arr = Array.make nfl [] in
+      if fls <> "-" then
+        List.iter (fun e -> match String.split_on_char '=' e with
+            | [k; l] -> arr.(int_of_string k) <- List.map z_of_string (String.split_on_char ',' l)
+            | _ -> failwith "malformed free list") (String.split_on_char ';' fls);
+      Some (((zs res, zs n), zs av), Array.to_list arr)
+    | _ -> failwith "malformed pool step"
+
 let model _ l = match words l with
   | "pv" :: n :: ops ->
     (match Model.pv_trace_raw (zs n) (List.map pv_op ops) with
@@ -102,6 +127,10 @@ let model _ l = match words l with
            | Some ((((na, pa), ea), la), (((nb, pb), eb), lb)) ->
              Printf.sprintf "%s.%s.%s:%s/%s.%s.%s:%s" (string_of_z na) (string_of_z pa) (string_of_z ea) (show_list la)
                (string_of_z nb) (string_of_z pb) (string_of_z eb) (show_list lb)) tr))
+  | "pool" :: maxb :: al :: cb :: ops ->
+    (match Model.pool_trace_raw (zs maxb) (zs al) (zs cb) (List.map pool_op ops) with
+     | None -> "ASSERT"
+     | Some tr -> String.concat " " (List.map (function None -> "UB" | Some o -> show_pool_step o) tr))
   | _ -> "BADCASE"
 
 (* contents part of one printed step: "<hdrA>:<elemsA>/<hdrB>:<elemsB>" -> Some (la, lb); "UB" -> None *)
@@ -137,6 +166,14 @@ let holds _ c impl =
        let obs = List.map parse_step (words impl) in
        if Model.holds_bd (List.map bd_op ops) obs then "ok"
        else "fail bitdeque contents differ from std::deque<bool> semantics of the script"
+     with _ -> "fail malformed implementation output")
+  | "pool" :: maxb :: al :: cb :: ops ->
+    (try
+       let ea = max 8 (int_of_string al) in
+       let nfl = int_of_string maxb / ea + 1 in
+       let obs = List.map (parse_pool_step nfl) (words impl) in
+       if Model.holds_pool (zs maxb) (zs al) (zs cb) (List.map pool_op ops) obs then "ok"
+       else "fail pool: a returned block is misaligned / outside its chunk / overlaps a live allocation, or live+free+unused bytes differ from chunks*chunk_size"
      with _ -> "fail malformed implementation output")
   | _ -> "na"
 
